@@ -390,6 +390,12 @@ impl Cx {
                 }
                 format!("({} {})", self.map_path(&s.path), fields.join(" "))
             }
+            // (tolerance) `matches!(e, P)` ↦ `(match e with | P => true | _ => false)`:
+            // the same Lean term as the `if let P = e { true } else { false }` spelling
+            Expr::Macro(mac) if macro_name(&mac.mac) == "matches" => {
+                let (scrut, pat) = self.matches_parts(&mac.mac)?;
+                format!("(match {scrut} with | {pat} => true | _ => false)")
+            }
             Expr::If(_) | Expr::Match(_) | Expr::Block(_) | Expr::Macro(_) => {
                 format!("(← {})", self.m(e)?)
             }
@@ -516,6 +522,13 @@ impl Cx {
                     format!("(do if {c} then {then} else {els})")
                 }
             }
+            // (tolerance) `match b { true => A, false => B }` (either order) is the
+            // same Lean term as `if b { A } else { B }`
+            Expr::Match(mm) if bool_match(mm).is_some() => {
+                let (t, f) = bool_match(mm).unwrap();
+                let c = self.v(&mm.expr)?;
+                format!("(do if {c} then {} else {})", self.m(t)?, self.m(f)?)
+            }
             Expr::Match(mm) => {
                 let scrut = self.v(&mm.expr)?;
                 let arms: Vec<&syn::Arm> = mm.arms.iter().collect();
@@ -638,6 +651,22 @@ impl Cx {
                     format!("(do if {c} then {then} else {els})")
                 }
             }
+            // (tolerance) a non-final `if` / `match` / block statement some of whose
+            // branches leave the function (`return`, panic) and others fall through:
+            // the remainder of the block is bound once as a local thunk and every
+            // branch that falls through continues with it.  (Without this a nested
+            // `return` would be bound by `let _ ←` and silently dropped.)
+            Stmt::Expr(e @ (Expr::If(_) | Expr::Match(_) | Expr::Block(_)), _)
+                if !rest.is_empty() && contains_return(e) =>
+            {
+                let n = rest.len();
+                let k = format!("k__{n} ()");
+                let body = self.with_cont(e, &k)?;
+                format!(
+                    "(let k__{n} := fun (_ : Unit) => {};\n {body})",
+                    rest_s(self)?
+                )
+            }
             Stmt::Expr(e, semi) => {
                 if rest.is_empty() && semi.is_none() {
                     self.m(e)?
@@ -701,6 +730,135 @@ impl Cx {
             },
         })
     }
+}
+
+impl Cx {
+    fn matches_parts(&self, mac: &syn::Macro) -> Result<(String, String), String> {
+        struct Parts(Expr, Pat);
+        impl syn::parse::Parse for Parts {
+            fn parse(input: syn::parse::ParseStream) -> syn::Result<Self> {
+                let e: Expr = input.parse()?;
+                input.parse::<syn::Token![,]>()?;
+                let p = Pat::parse_multi_with_leading_vert(input)?;
+                if input.peek(syn::Token![if]) {
+                    return Err(input.error("matches! with a guard"));
+                }
+                let _ = input.parse::<Option<syn::Token![,]>>()?;
+                Ok(Parts(e, p))
+            }
+        }
+        let Parts(e, p) = mac
+            .parse_body::<Parts>()
+            .map_err(|e| format!("unsupported matches!: {e}"))?;
+        Ok((self.v(&e)?, self.pat(&p)?))
+    }
+
+    /// `e` (an `if` / `match` / block in statement position) followed by the
+    /// continuation `k` in every branch that falls through.
+    fn with_cont(&self, e: &Expr, k: &str) -> R {
+        Ok(match e {
+            Expr::Block(b) => self.stmts_then(&b.block.stmts, k)?,
+            Expr::If(i) => {
+                let then = self.stmts_then(&i.then_branch.stmts, k)?;
+                let els = match &i.else_branch {
+                    Some((_, e)) => self.with_cont(e, k)?,
+                    None => k.to_string(),
+                };
+                if let Expr::Let(l) = &*i.cond {
+                    let scrut = self.v(&l.expr)?;
+                    let pat = self.pat(&l.pat)?;
+                    format!("(do match {scrut} with\n | {pat} => {then}\n | _ => {els})")
+                } else {
+                    let c = self.v(&i.cond)?;
+                    format!("(do if {c} then {then} else {els})")
+                }
+            }
+            Expr::Match(mm) => {
+                if mm.arms.iter().any(|a| a.guard.is_some()) {
+                    return Err("unsupported: guarded arms in a non-final match statement with return".into());
+                }
+                let scrut = self.v(&mm.expr)?;
+                let mut out = format!("(do match {scrut} with");
+                for a in &mm.arms {
+                    out.push_str(&format!(
+                        "\n | {} => {}",
+                        self.pat(&a.pat)?,
+                        self.with_cont(&a.body, k)?
+                    ));
+                }
+                out.push(')');
+                out
+            }
+            Expr::Return(_) => self.m(e)?,
+            Expr::Macro(mac) if self.panic_macros.contains(&macro_name(&mac.mac)) => self.m(e)?,
+            Expr::Paren(p) => self.with_cont(&p.expr, k)?,
+            other => format!("(do\n let _ ← {}\n {k})", self.m(other)?),
+        })
+    }
+
+    /// The statements, then `k` (unless they leave the function).
+    fn stmts_then(&self, stmts: &[Stmt], k: &str) -> R {
+        if stmts.is_empty() {
+            return Ok(k.to_string());
+        }
+        if diverges(stmts) {
+            return self.block(stmts);
+        }
+        // append the continuation as a final expression statement
+        let cont: Expr = syn::parse_str("__cont__()").unwrap();
+        let mut all: Vec<Stmt> = stmts.to_vec();
+        if let Some(Stmt::Expr(_, semi)) = all.last_mut() {
+            if semi.is_none() {
+                *semi = Some(Default::default());
+            }
+        }
+        all.push(Stmt::Expr(cont, None));
+        let s = self.stmts(&all)?;
+        if !s.contains("(__cont__)") {
+            return Err("internal: continuation marker lost".into());
+        }
+        Ok(s.replace("(do pure (__cont__))", k).replace("(__cont__)", k))
+    }
+}
+
+pub fn macro_name(m: &syn::Macro) -> String {
+    m.path.segments.last().map(|s| s.ident.to_string()).unwrap_or_default()
+}
+
+/// `match b { true => A, false => B }` in either order (also `_` for the second arm).
+fn bool_match(mm: &syn::ExprMatch) -> Option<(&Expr, &Expr)> {
+    if mm.arms.len() != 2 || mm.arms.iter().any(|a| a.guard.is_some()) {
+        return None;
+    }
+    let lit = |p: &Pat| match p {
+        Pat::Lit(l) => match &l.lit {
+            Lit::Bool(b) => Some(b.value),
+            _ => None,
+        },
+        _ => None,
+    };
+    let (a, b) = (&mm.arms[0], &mm.arms[1]);
+    match (lit(&a.pat), lit(&b.pat)) {
+        (Some(true), Some(false)) => Some((&a.body, &b.body)),
+        (Some(false), Some(true)) => Some((&b.body, &a.body)),
+        (Some(true), None) if matches!(b.pat, Pat::Wild(_)) => Some((&a.body, &b.body)),
+        (Some(false), None) if matches!(b.pat, Pat::Wild(_)) => Some((&b.body, &a.body)),
+        _ => None,
+    }
+}
+
+/// Does the expression contain a `return` (or a panic macro) below statement level?
+pub fn contains_return(e: &Expr) -> bool {
+    struct V(bool);
+    impl<'a> syn::visit::Visit<'a> for V {
+        fn visit_expr_return(&mut self, _: &'a syn::ExprReturn) {
+            self.0 = true;
+        }
+        fn visit_expr_closure(&mut self, _: &'a syn::ExprClosure) {}
+    }
+    let mut v = V(false);
+    syn::visit::Visit::visit_expr(&mut v, e);
+    v.0
 }
 
 /// Does this statement list always leave the function (return / panic)?
